@@ -50,10 +50,12 @@ AInit(n, gone) ==
 
 Keep(id, v) == [id |-> id, kind |-> "keep", ob |-> v]
 Kind(id, kind) == [id |-> id, kind |-> kind, ob |-> NoOutcome]
+OneOf(id, ds) == [id |-> id, kind |-> "oneof", ob |-> NoOutcome, ds |-> ds]
 Matches(a, v) ==
   CASE a.kind = "keep" -> v = a.ob
     [] a.kind = "gone" -> v.st = "gone"
     [] a.kind = "size0" -> IsSize0(v)
+    [] a.kind = "oneof" -> v.st = "data" /\ v.d \in a.ds
     [] OTHER -> FALSE
 
 (* ---------------------------------------------------------------- upload *)
@@ -63,21 +65,35 @@ Matches(a, v) ==
    C01-empty-any-cookie: an empty payload is stored as a size-0 needle that
    comes back without cookie and metadata (a replica that received the payload
    gzip-wrapped holds a regular needle with all of it).
-   C40-forwarder-skips-unmounted-copies: a server whose own copy is unmounted
-   forwards the request to the locations it knows of and reports their success
-   without comparing their number with the copy count; its own copy and any
-   other unmounted copy keep what they had. *)
+   C40-forwarder-skips-copies: a server whose own copy is unmounted forwards
+   the request to the locations it knows of (the master's list when it first
+   asked, cached for 10 minutes) and reports their success without comparing
+   their number with the copy count; its own copy and every copy missing from
+   that list - unmounted, or mounted again since - keep what they had. *)
 UploadAlts(r, to, k, c, d, vttl) ==
   LET v == val[r][k] IN
      (IF vttl = "" /\ IsData(v) /\ ~IsSize0(v) /\ v.c = c /\ v.d = d
         THEN {Keep("C01-unchanged-keeps-metadata", v)} ELSE {})
   \cup (IF d = "e" THEN {Kind("C01-empty-any-cookie", "size0")} ELSE {})
-  \cup (IF to \in member \ mounted /\ r \in member \ mounted
-          THEN {Keep("C40-forwarder-skips-unmounted-copies", v)} ELSE {})
+  \cup (IF to \in member \ mounted /\ r \in member
+          THEN {Keep("C40-forwarder-skips-copies", v)} ELSE {})
 
 AUpload(to, k, c, d, vttl, res) ==
   /\ need' = [need EXCEPT ![k] = (res = "ok")]
   /\ alt' = [r \in AllR |-> [alt[r] EXCEPT ![k] = IF res = "ok" THEN UploadAlts(r, to, k, c, d, vttl) ELSE {}]]
+  /\ UNCHANGED <<member, mounted, val>>
+
+(* ---------------------------------------------------------------- two uploads at the same time *)
+(* Two uploads for one file id issued concurrently (through the same or different copies).  When both are
+   reported successful the statement applies to both: the copies agree (on either of the two).
+   C40-concurrent-overwrites-diverge: every copy applies the two writes in the order in which they happen
+   to reach it - the primary's local write and its fan-out are not ordered against the other request - so
+   each copy ends up with either of the two blobs, independently of the others. *)
+ARace(k, c, d1, d2, res1, res2) ==
+  LET ok == res1 = "ok" /\ res2 = "ok" IN
+  /\ need' = [need EXCEPT ![k] = ok]
+  /\ alt' = [r \in AllR |-> [alt[r] EXCEPT ![k] =
+               IF ok THEN {OneOf("C40-concurrent-overwrites-diverge", {d1, d2})} ELSE {}]]
   /\ UNCHANGED <<member, mounted, val>>
 
 (* ---------------------------------------------------------------- delete *)
